@@ -117,7 +117,20 @@ def compare(sc, real_fn, model_fn, spec, n, seed, rtol=1e-6, out_keys=None):
                     isnan = evaluate(m.buf.nan, env)
                     x = float('nan') if isnan else evaluate(vm, env)
                     vr = float(vr)
-                    if (x != x) != (vr != vr) or (x == x and not math.isclose(x, vr, rel_tol=rtol if str(r.dtype) != 'float32' else 1e-3, abs_tol=1e-300)):
+                    # single-precision operands round intermediate results of the real kernel (the model computes in exact reals); the
+                    # comparison is about unit/dtype/value semantics, not about rounding: wide tolerance then
+                    any_f32 = str(r.dtype) == 'float32' or any(len(v) > 2 and v[2] == 'float32' for v in desc.values() if isinstance(v, tuple))
+                    if (x != x) != (vr != vr) or (x == x and not math.isclose(x, vr, rel_tol=1e-2 if any_f32 else rtol, abs_tol=1e-300)):
+                        if any_f32:
+                            # still apart (cancellation, or the NaN boundary): decide on the same values in double precision
+                            try:
+                                r64 = real_fn(**{k: (v.to(dtype='float64') if str(v.dtype) == 'float32' else v) for k, v in rk.items()})
+                                r64 = r64 if key is None else r64[key]
+                                v64 = float(r64.value if not isinstance(m.val, list) else list(r64.value)[vals_m.index(vm)])
+                                if (x != x) == (v64 != v64) and (x != x or math.isclose(x, v64, rel_tol=rtol, abs_tol=1e-300)):
+                                    continue
+                            except Exception:  # noqa: BLE001
+                                pass
                         bad.append({'inputs': desc, 'key': key, 'problem': f'value real {vr!r} vs model {x!r}'})
                         break
             except NotClosed as e:
